@@ -129,8 +129,50 @@ fn digest_document(ctx: &mut Ctx, case: u64, rng: &mut Rng, out: &mut Vec<Value>
     }
 }
 
+/// Documents whose resolution fails with SEVERAL simultaneous faults of one kind: which of them
+/// the diagnostic names must not depend on hashing.
+const MULTI_FAULT_DOCS: &[(&str, &str)] = &[
+    ("include-with-three-missing-names", "package test:comp;\n\nworld a {\n    import f: func();\n    import g: func();\n}\n\nworld b {\n    include a with { x as p, y as q, z as r };\n}\n"),
+    ("include-with-two-missing-names", "package test:comp;\n\nworld a {\n    import f: func();\n}\n\nworld b {\n    include a with { f as ok, nope1 as p, nope2 as q };\n}\n"),
+    ("four-imports-outside-the-target", "package test:comp targets test:comp/foo;\n\nworld foo {\n    export e: func();\n}\n\nimport alpha: func();\nimport beta: func();\nimport gamma: func();\nimport delta: func();\n"),
+    ("three-exports-missing-from-the-composition", "package test:comp targets test:comp/foo;\n\nworld foo {\n    export a: func();\n    export b: func();\n    export c: func();\n}\n"),
+    ("three-imports-with-mismatched-types", "package test:comp targets test:comp/foo;\n\nworld foo {\n    import alpha: func();\n    import beta: func();\n    import gamma: func();\n}\n\nimport alpha: func(a: u8);\nimport beta: func(a: u8);\nimport gamma: func(a: u8);\n"),
+];
+
+fn digest_multi_fault(ctx: &mut Ctx, out: &mut Vec<Value>) {
+    for (i, (name, text)) in MULTI_FAULT_DOCS.iter().enumerate() {
+        let case = 2_000_000 + i as u64;
+        if !ctx.mine(case) {
+            continue;
+        }
+        ctx.begin(case);
+        let runs: Vec<String> = (0..6)
+            .map(|_| {
+                ctx.eval();
+                match catch(|| match wac_parser::Document::parse(text) {
+                    Ok(doc) => match doc.resolve(Default::default()) {
+                        Ok(_) => "resolved".to_string(),
+                        Err(e) => fixtures::render(e, std::path::Path::new("doc.wac"), text),
+                    },
+                    Err(e) => fixtures::render(e, std::path::Path::new("doc.wac"), text),
+                }) {
+                    Ok(s) => s,
+                    Err(p) => format!("panic:{}", p.message),
+                }
+            })
+            .collect();
+        if runs.iter().any(|r| *r != runs[0]) {
+            let distinct: std::collections::BTreeSet<&String> = runs.iter().collect();
+            ctx.violation(case, &format!("C16:diagnostic-differs-in-process:{name}"), format!("the same document resolved six times in one process gives {} different diagnostics; two of them:\n{}", distinct.len(), distinct.iter().take(2).map(|s| s.as_str()).collect::<Vec<_>>().join("\n---\n")), json!({"text": text}));
+        }
+        ctx.count(if runs[0] == "resolved" { "multi-fault:resolved(harness)" } else { "multi-fault:diagnostic" });
+        out.push(json!([format!("multi-fault:{name}"), sha256_hex(runs[0].as_bytes())]));
+    }
+}
+
 pub fn run(ctx: &mut Ctx) {
     let mut digests: Vec<Value> = Vec::new();
+    digest_multi_fault(ctx, &mut digests);
     ctx.note("list:hash_probe", json!([hash_probe()]));
     // fixtures: the resolver path (documents + file-system packages), successes and diagnostics
     let fx = fixtures::all();
